@@ -14,8 +14,9 @@ LEVEL = "model_checking"
 def run(ctx):
     fmt_common.run_prop(
         ctx, "c21",
-        ["Layout_c21_quick_one.cfg", "Layout_c21_quick_two.cfg", "Layout_c21_quick_expr.cfg"],
-        ["Layout_c21_thorough_one.cfg", "Layout_c21_thorough_two.cfg", "Layout_c21_thorough_expr.cfg"])
+        ["Layout_c21_quick_one.cfg", "Layout_c21_quick_two.cfg", "Layout_c21_quick_expr.cfg",
+         "Layout_c21_quick_oneline.cfg"],
+        ["Layout_c21_thorough_one.cfg", "Layout_c21_thorough_two.cfg", "Layout_c21_thorough_expr.cfg", "Layout_c21_quick_oneline.cfg"])
     ctx.rule = ("every token boundary (0..n) of every tree of the cfg's families x comment kind x placement before/after the gap's "
                 "line break where that is a different place; pairs of comments (ordered boundaries) on the pair shapes / all templates; "
                 "distinct/non-trivial = distinct (tree, layout skeleton with the comment positions); plus every corpus file that parses")
